@@ -287,6 +287,12 @@ def run(case):
                     c.close(f"{mlab}/p={p}/resultant", "follower pressure resultant = -p * integrated current area vector", f.sum(0), -p * tot, max(abs(p) * np.abs(x).max() ** (mesh.dim - 1), 1e-9), 1e-9)
                 if load.assemble.multiplier != -1.0:
                     c.bad("multiplier", "a load enters the residual with multiplier -1", load.assemble.multiplier, -1.0)
+                # call history on the same item: vector(), vector(pressure=2.5), vector(pressure=-0.4), vector(field, pressure=1.5),
+                # vector(): the resultant follows the CURRENT pressure (linear in it) at the unchanged state
+                for kw_, pk in ((dict(), p), (dict(pressure=2.5), 2.5), (dict(pressure=-0.4), -0.4), (dict(field=fb, pressure=1.5), 1.5), (dict(), 1.5)):
+                    rk = load.assemble.vector(**kw_).toarray()[:, 0]
+                    c.trans += 1
+                    c.close(f"{mlab}/p={p}/history/{sorted(kw_)}->{pk}", "follower pressure vector after a call history on one item = (current pressure / first pressure) x first vector", rk, pk / p * r, max(np.abs(r).max() * abs(pk / p), 1e-12), 1e-12)
         return c.result(dict(case=case["key"], masks=len(masks)))
     if kind == "pointload":
         mixed = case["fk"] == "mixed3d"
